@@ -74,7 +74,8 @@ def run(tier, seed):
         gc = c["_gc"]
         pred = gc["run"]
         cfg = gc["cfg"]
-        rep = {"engine": "runs", "case": {k: c[k] for k in c if not k.startswith("_")}, "model": {"cfg": cfg, "script": gc["script"], "run": pred}}
+        rep = {"engine": "runs", "case": {k: c[k] for k in c if not k.startswith("_")}, "model": {"cfg": cfg, "script": gc["script"], "run": pred},
+               "pre": c.get("_pre", 0)}
         ncalls = sum(len(r["calls"]) for r in gc["script"])
         v.add_eval({"cfg": cfg, "script": gc["script"]}, ncalls > 0)
         if res["timed_out"] or not res["session_frames"]:
@@ -230,6 +231,7 @@ def replay(path, seed):
     sf = res["session_frames"][-1]
     ex = runloop.executed_tools(sf)
     pred = case["model"]["run"]
+    res["requests"] = res["requests"][case.get("pre", 0):]      # requests of an earlier message on the thread
     ans = runloop.answered_ids(res["requests"], case["model"]["cfg"]["stateless"])
     print(json.dumps({"executed": ex, "answered": ans, "requests": len(res["requests"]), "reference": pred}, indent=1)[:2500])
     if ex != [t for _, t in pred["executed"]] or ans != pred["answered"][:max(0, len(res["requests"]) - 1)]:
